@@ -120,6 +120,9 @@ func (ds c11Devs) String() string {
 // and keeps the pointers (both usages are legitimate; the pointers address the layer's fields).
 var c11WeightsOnce bool
 
+// c11UncontrolledInit counts default-initialised cases skipped because the library's random source is not seeded by the harness.
+var c11UncontrolledInit int64
+
 func c11Run(m c11Model, x, t *ref.T, init c11Weights, defaultInit bool, steps int, dev c11Devs) core.Verdict {
 	var fc *layers.FC
 	var err error
@@ -128,6 +131,24 @@ func c11Run(m c11Model, x, t *ref.T, init c11Weights, defaultInit bool, steps in
 		fc, err = layers.NewFC(&layers.FCConfig{Inputs: m.D, Outputs: m.O})
 		if err == nil {
 			init = c11Weights{rt.Read(fc.Weight), rt.Read(fc.Bias)}
+			// Is the default initialisation under the harness's control? A library whose initializers draw from a
+			// private, clock-seeded source gives every execution other initial weights; a trajectory from weights
+			// nobody chose can land where the loss is ill-conditioned (a prediction on the clipping bound), and
+			// the verdict then differs between an execution and its re-execution. That says nothing about the
+			// property (found with the property-preserving bundle B10, DESIGN 9.11): the case is then left to the
+			// fixed-weight variants of the same model, and counted.
+			xrand.Seed(4242)
+			if fc2, err2 := layers.NewFC(&layers.FCConfig{Inputs: m.D, Outputs: m.O}); err2 == nil {
+				w2, b2 := rt.Read(fc2.Weight), rt.Read(fc2.Bias)
+				if ok1, _ := core.ExactEq(w2, init.w); !ok1 {
+					c11UncontrolledInit++
+					return core.Verdict{OK: true, Skip: true, Detail: "default initialisation is not reproducible under a fixed seed: trajectory left to the fixed-weight variants"}
+				}
+				if ok2, _ := core.ExactEq(b2, init.b); !ok2 {
+					c11UncontrolledInit++
+					return core.Verdict{OK: true, Skip: true, Detail: "default initialisation is not reproducible under a fixed seed: trajectory left to the fixed-weight variants"}
+				}
+			}
 		}
 	} else {
 		fc, err = layers.NewFC(&layers.FCConfig{Inputs: m.D, Outputs: m.O, Initializers: map[string]layers.Initializer{"Weight": fixedInit{t: init.w}, "Bias": fixedInit{t: init.b}}})
@@ -329,6 +350,13 @@ func closeScalar(a, b float64) bool {
 }
 
 func checkC11(c *core.Ctx) {
+	defer func() {
+		if c11UncontrolledInit > 0 {
+			c.P.Capped = true
+			c.P.CapNote = fmt.Sprintf("the library's default initialisation is not reproducible under a fixed seed (private random source): %d default-initialised trajectories were left to the fixed-weight variants", c11UncontrolledInit)
+			c.Count("default_init_trajectories_not_under_harness_control", c11UncontrolledInit)
+		}
+	}()
 	if c.Shard == 0 && c.Only == "" {
 		if f := refSelftest(); f > 0 {
 			c.Broken("reference model selftest failed (%d)", f)
